@@ -63,6 +63,8 @@ type Options struct {
 	Insecure        bool
 	ShutdownTimeout time.Duration
 	LogHTTP         string
+	Net             *simnet.Net // share an existing network (several proxy instances in one bubble)
+	Addr            string      // listen address (default ProxyAddr)
 }
 
 type World struct {
@@ -71,6 +73,7 @@ type World struct {
 	Reg     *prometheus.Registry
 	Log     *MemLog
 	Cfg     *forwarder.HTTPProxyConfig
+	Addr    string
 	cancel  context.CancelFunc
 	runErr  chan error
 	stopped bool
@@ -81,14 +84,20 @@ var initOnce sync.Once
 
 // Start builds and runs the proxy. Must be called inside a synctest bubble.
 func Start(o Options) (*World, error) {
-	w := &World{Net: simnet.New(), Log: &MemLog{}}
+	w := &World{Net: o.Net, Log: &MemLog{}, Addr: ProxyAddr}
+	if w.Net == nil {
+		w.Net = simnet.New()
+	}
+	if o.Addr != "" {
+		w.Addr = o.Addr
+	}
 	forwarder.VerifListen = func(addr string) (net.Listener, error) { return w.Net.Listen(addr) }
 	forwarder.VerifDial = w.Net.Dial
 	martianlog.SetLogger(w.Log.Named("martian"))
 
 	tcfg := forwarder.DefaultHTTPTransportConfig()
 	cfg := forwarder.DefaultHTTPProxyConfig()
-	cfg.Address = ProxyAddr
+	cfg.Address = w.Addr
 	if !o.NoProm {
 		w.Reg = prometheus.NewRegistry()
 		cfg.PromRegistry = w.Reg
@@ -324,7 +333,7 @@ type Peer struct {
 // Client connects a new scripted client to the proxy.
 func (w *World) Client() (*Peer, error) {
 	w.nclient++
-	c, err := w.Net.DialFrom(fmt.Sprintf("client%d.test", w.nclient), ProxyAddr)
+	c, err := w.Net.DialFrom(fmt.Sprintf("client%d.test", w.nclient), w.Addr)
 	if err != nil {
 		return nil, err
 	}
@@ -527,7 +536,7 @@ type failer interface {
 // Repanic handles the value returned by Bubble: the bubble's leak report becomes an oracle failure
 // (unless the scenario already reported one), anything else is re-raised for the explorer.
 func Repanic(x failer, p any) {
-	if s, ok := p.(string); ok && strings.HasPrefix(s, "deadlock: main bubble goroutine has exited") {
+	if s := fmt.Sprint(p); strings.HasPrefix(s, "deadlock: main bubble goroutine has exited") {
 		if !x.Failed() {
 			x.Failf("goroutine-leak", "%s", s)
 		}
